@@ -124,8 +124,11 @@ def g_if(R, tier):
                      [("rep", E.length, E.jvar, False, [("stmt", tagstr(E.items[0].tag[0][1]))])])]
             compare(R, f"{base}/test-once-then-exactly-one-branch/{sig}", p, p.value["res"], want, guarded=True,
                     replay=dict(kind="src", src="log = []\ndef t(v):\n    log.append(v)\n    return v\nif t(0):\n    log.append('a')\nelse:\n    log.append('b')\nif t([]):\n    log.append('c')\nif t(1):\n    x = 0\nelse:\n    log.append('d')\n"
-                                             "for i in range(3):\n    if t(i == 1):\n        continue\n    else:\n        log.append(('i', i))\n"
-                                             "def g(x):\n    if t(x):\n        return\n    else:\n        log.append('g')\ng(1)\ng(0)\n", expect="same-globals"))
+                                             "def lp():\n    for i in range(3):\n        if t(i == 1):\n            continue\n        else:\n            log.append(('i', i))\nlp()\n"
+                                             "def g(x):\n    if t(x):\n        return\n    else:\n        log.append('g')\ng(1)\ng(0)\n"
+                                             # the test object is asked for its truth value once
+                                             "class L:\n    def __init__(self, n):\n        self.n = n\n    def __len__(self):\n        log.append(('len', self.n))\n        return self.n\n"
+                                             "def h(x):\n    if x:\n        return 't'\n    else:\n        return 'f'\nr = (h(L(0)), h(L(2)))\nif L(0):\n    pass\nelif L(0):\n    pass\nelse:\n    log.append('end')\n", expect="same-globals"))
 
 
 def g_return(R, tier):
